@@ -1205,11 +1205,13 @@ def compile_with_expression(compiler, expr, root, args, body):
             ctx = compiler.compile(ctx)
             if i == 0:
                 ret += ctx
-            elif ctx.stmts:
-                # We need to include some statements as part of this
-                # context manager, but this `with` already has at
-                # least one prior context manager. So, put our
-                # statements in the body and then start a new `with`.
+            else:
+                # This `with` already has a prior context manager. Start
+                # a new `with` in the body (after any statements this
+                # context manager needs). The result is then assigned
+                # only after this manager has exited, so it stays `None`
+                # if its `__exit__` raises an exception that a prior
+                # manager suppresses.
                 cbody = ctx + compile_with_expression(
                     compiler,
                     expr,
